@@ -16,7 +16,7 @@ import (
 // that step go to Coq, which replays them through the writer model and the property oracle.
 
 type c03Op struct {
-	Op  string `json:"op"` // send | ack | close | open
+	Op  string `json:"op"` // send | ack | close | open | flap (reconnect, read CONNACK only, drop while the broker's writer is blocked)
 	QoS int    `json:"qos,omitempty"`
 	Exp int    `json:"exp,omitempty"` // 0 none, 1 = expiry interval 1 s (always elapsed when checked), 100
 	K   int    `json:"k,omitempty"`
@@ -30,6 +30,7 @@ type c03Op struct {
 type c03Case struct {
 	V5  bool    `json:"v5"`
 	RM  int     `json:"rm"`
+	Big bool    `json:"big,omitempty"` // payloads padded to 3000 bytes (retransmissions do not fit one write)
 	Ops []c03Op `json:"ops"`
 }
 
@@ -41,8 +42,9 @@ type c03Wire struct {
 }
 
 type c03Step struct {
-	Ev   string    `json:"ev"` // Coq term of the concrete event
-	Wire []c03Wire `json:"wire"`
+	Ev    string    `json:"ev"` // Coq term of the concrete event
+	Wire  []c03Wire `json:"wire"`
+	Blind bool      `json:"blind,omitempty"` // the client did not read during this step: nothing to compare
 }
 
 type c03Obs struct {
@@ -69,6 +71,31 @@ func (p *c03Prop) Gen(r *Rng, i int, tier string) interface{} {
 	if !c.V5 {
 		c.RM = 65535
 	}
+	if i%6 == 5 {
+		// unacknowledged messages in flight, the connection drops, the client comes back but drops again
+		// before it has read its retransmissions (the broker's writer is blocked), then comes back for good
+		c.Big = r.Chance(70)
+		c.RM = []int{3, 10}[r.Intn(2)]
+		if !c.V5 {
+			c.RM = 65535
+		}
+		k := 2 + r.Intn(2)
+		for j := 0; j < k; j++ {
+			c.Ops = append(c.Ops, c03Op{Op: "send", QoS: 1 + r.Intn(2)})
+		}
+		if r.Chance(40) {
+			c.Ops = append(c.Ops, c03Op{Op: "ack", K: r.Intn(3)})
+		}
+		c.Ops = append(c.Ops, c03Op{Op: "close"}, c03Op{Op: "flap", RM: c.RM})
+		if r.Chance(40) {
+			c.Ops = append(c.Ops, c03Op{Op: "flap", RM: c.RM})
+		}
+		c.Ops = append(c.Ops, c03Op{Op: "open", RM: c.RM})
+		for j := 0; j < 8; j++ {
+			c.Ops = append(c.Ops, c03Op{Op: "ack", K: 0})
+		}
+		return c
+	}
 	n := 4 + r.Intn(22)
 	online := true
 	reconnects := p.id == "C02" || r.Chance(50)
@@ -92,6 +119,9 @@ func (p *c03Prop) Gen(r *Rng, i int, tier string) interface{} {
 				c.Ops = append(c.Ops, c03Op{Op: "send", QoS: 1})
 			} else if online {
 				c.Ops = append(c.Ops, c03Op{Op: "close"})
+				if r.Chance(30) {
+					c.Ops = append(c.Ops, c03Op{Op: "flap", RM: c.RM})
+				}
 				online = false
 			} else {
 				rm := c.RM
@@ -183,6 +213,8 @@ func (p *c03Prop) Run(ci interface{}) interface{} {
 	wSeen := 0
 	var outstanding []c03Out
 	pubID := uint16(0)
+	curRM := c.RM       // Receive Maximum of the current connection of S
+	queuedMaybe := false // messages may wait in the broker's queues (not yet transmitted for the first time)
 
 	routeBarrier := func() bool {
 		pubID++
@@ -254,7 +286,14 @@ func (p *c03Prop) Run(ci interface{}) interface{} {
 		case "send":
 			nSent++
 			tag := nSent
-			m := mkPublish(mqttp.ProtocolV50, "t", []byte{byte(tag)}, byte(op.QoS), false, uint16(10000+k))
+			payload := []byte{byte(tag)}
+			if c.Big {
+				payload = append(payload, make([]byte, 2999)...)
+			}
+			if !online || (c.V5 && len(outstanding) >= curRM) {
+				queuedMaybe = true
+			}
+			m := mkPublish(mqttp.ProtocolV50, "t", payload, byte(op.QoS), false, uint16(10000+k))
 			pexp := "None"
 			if op.Exp > 0 {
 				_ = m.PropertySet(mqttp.PropertyPublicationExpiry, uint32(op.Exp))
@@ -322,6 +361,41 @@ func (p *c03Prop) Run(ci interface{}) interface{} {
 			logFrom()
 			online = false
 			st.Ev = "(EClose 0%Z)"
+		case "flap":
+			// only when everything pending is in flight (nothing waits for its FIRST transmission): then the
+			// state after "reconnect, read nothing, drop" must be the state before
+			if online || queuedMaybe || len(outstanding) == 0 {
+				continue
+			}
+			rm := op.RM
+			if c.V5 && rm < len(outstanding) {
+				rm = len(outstanding)
+			}
+			if !c.V5 {
+				rm = 65535
+			}
+			d0, a0 := b.Met.Disconnected(), b.Met.AddStore()
+			fc := b.DialCap(16)
+			fo := ConnectOpts{ID: "S", Ver: ver, Clean: false}
+			if c.V5 {
+				fo.Expiry = &forever
+				fo.RecvMax = uint16(rm)
+			}
+			if _, err := fc.Connect(fo); err != nil {
+				obs.Err = fmt.Sprintf("step %d: flap reconnect: %v", k, err)
+				break
+			}
+			time.Sleep(30 * time.Millisecond) // the writer runs into the full pipe
+			fc.Close()
+			deadline := time.Now().Add(5 * time.Second)
+			for time.Now().Before(deadline) && !(b.Met.Disconnected() > d0 && b.Met.AddStore() > a0) {
+				time.Sleep(time.Millisecond)
+			}
+			if !(b.Met.Disconnected() > d0 && b.Met.AddStore() > a0) {
+				obs.Err = fmt.Sprintf("step %d: flap close was not processed", k)
+			}
+			obs.Steps = append(obs.Steps, c03Step{Ev: fmt.Sprintf("(EOpen %d%%Z)", rm), Wire: []c03Wire{}, Blind: true})
+			st.Ev = "(EClose 0%Z)"
 		case "open":
 			if online {
 				continue
@@ -345,6 +419,7 @@ func (p *c03Prop) Run(ci interface{}) interface{} {
 			if !c.V5 {
 				rm = 65535
 			}
+			curRM = rm
 			st.Ev = fmt.Sprintf("(EOpen %d%%Z)", rm)
 		}
 		if obs.Err != "" {
@@ -367,6 +442,9 @@ func (p *c03Prop) Run(ci interface{}) interface{} {
 			case 0:
 				addOut(&outstanding, c03Out{r.w.ID, mqttp.PUBCOMP})
 			}
+		}
+		if op.Op == "open" && online && (!c.V5 || len(outstanding) < curRM) {
+			queuedMaybe = false // the quota was not exhausted after the barrier: nothing is left waiting
 		}
 		obs.Steps = append(obs.Steps, st)
 	}
@@ -394,7 +472,7 @@ func (p *c03Prop) Coq(ci interface{}, oi interface{}) string {
 		for j, w := range s.Wire {
 			ws[j] = fmt.Sprintf("(%d, %d, %d, %s)", w.K, w.ID, w.Tag, cBool(w.Dup))
 		}
-		steps[i] = fmt.Sprintf("(mkStep %s %s)", s.Ev, cList(ws))
+		steps[i] = fmt.Sprintf("(mkStep %s %s %s)", s.Ev, cList(ws), cBool(s.Blind))
 	}
 	rm := c.RM
 	if !c.V5 {
